@@ -408,13 +408,18 @@ func runNaNGuard(c *Ctx, r *Reporter) {
 						if _, isDebug := ref.(*ssa.DebugRef); isDebug {
 							continue
 						}
-						guarded := false
-						for _, u2 := range loads {
-							if _, _, anyTrue := nanSafeGuards(ref, u2); anyTrue {
-								guarded = true
+						if onlyErrorReturns(ref.Block(), map[*ssa.BasicBlock]bool{}) {
+							continue // used to build the error message on the rejecting path
+						}
+						target := ref.Block()
+						if phi, ok := ref.(*ssa.Phi); ok {
+							for i, e := range phi.Edges {
+								if e == ssa.Value(u) {
+									target = phi.Block().Preds[i]
+								}
 							}
 						}
-						if !guarded {
+						if nanPathReaches(fn, loads, target) {
 							bad = ref.String()
 						}
 					}
@@ -525,4 +530,61 @@ func allPathsUpperBounded(cv *ssa.Convert, ms *ssa.MakeSlice) bool {
 		return false
 	}
 	return !reach(cv.Block())
+}
+
+// nanPathReaches: is there a path from the entry to target on which at least one
+// ordered comparison of the argument was evaluated and every evaluated one took
+// its FALSE edge (the only edges NaN can take)?
+func nanPathReaches(fn *ssa.Function, loads []*ssa.UnOp, target *ssa.BasicBlock) bool {
+	isLoad := func(v ssa.Value) bool {
+		for _, u := range loads {
+			if sameFloat(v, u) {
+				return true
+			}
+		}
+		return false
+	}
+	cmpBlock := func(b *ssa.BasicBlock) bool {
+		if len(b.Instrs) == 0 {
+			return false
+		}
+		ifi, ok := b.Instrs[len(b.Instrs)-1].(*ssa.If)
+		if !ok {
+			return false
+		}
+		bo, ok := ifi.Cond.(*ssa.BinOp)
+		if !ok {
+			return false
+		}
+		switch bo.Op {
+		case token.LSS, token.LEQ, token.GTR, token.GEQ:
+			return isLoad(bo.X) || isLoad(bo.Y)
+		}
+		return false
+	}
+	type state struct {
+		b    *ssa.BasicBlock
+		eval bool
+	}
+	seen := map[state]bool{}
+	stack := []state{{fn.Blocks[0], false}}
+	for len(stack) > 0 {
+		cur := stack[len(stack)-1]
+		stack = stack[:len(stack)-1]
+		if seen[cur] {
+			continue
+		}
+		seen[cur] = true
+		if cur.b == target && cur.eval {
+			return true
+		}
+		if cmpBlock(cur.b) {
+			stack = append(stack, state{cur.b.Succs[1], true})
+			continue
+		}
+		for _, s := range cur.b.Succs {
+			stack = append(stack, state{s, cur.eval})
+		}
+	}
+	return false
 }
